@@ -79,6 +79,11 @@ func extract(ctx context.Context, rs io.ReadSeeker, scanFunc func() osm.Scanner,
 		objChan := make(chan osm.Object, nprocs)
 		for i := 0; i < nprocs; i++ {
 			eg.Go(func() error {
+				// An object of a type that is not handled is reported when the
+				// channel has been drained: a worker that returned at once would
+				// leave the producer below blocked on a full channel (for ever,
+				// when it was the only or the last worker).
+				var unknown error
 				for obj := range objChan {
 					switch objType := obj.(type) {
 					case *osm.Node:
@@ -101,10 +106,12 @@ func extract(ctx context.Context, rs io.ReadSeeker, scanFunc func() osm.Scanner,
 						}
 					case *osm.Note, *osm.Bounds, *osm.User:
 					default:
-						return fmt.Errorf("unknown type %T", objType)
+						if unknown == nil {
+							unknown = fmt.Errorf("unknown type %T", objType)
+						}
 					}
 				}
-				return nil
+				return unknown
 			})
 		}
 
